@@ -556,6 +556,25 @@ pub fn gen_fan(rng: &mut Rng, p: usize) -> Facts {
         f.edges.push((118, *m));
         f.edges.push((*m, low[0]));
     }
+    // the three middle terms with the LARGEST ids (the last ones of any id-ordered walk over the
+    // many parents) and two others hang below private intermediate terms: ancestors that are
+    // reachable through one of the many parents only
+    {
+        let mut by_id: Vec<u32> = mids.to_vec();
+        by_id.sort_unstable();
+        let mut special: Vec<u32> = by_id.iter().rev().take(3).copied().collect();
+        special.push(*rng.pick(mids));
+        special.push(by_id[0]);
+        special.sort_unstable();
+        special.dedup();
+        let extra = gen_ids(rng, special.len(), &f.terms.iter().map(|t| t.0).collect::<Vec<u32>>());
+        for (e, m) in extra.iter().zip(special.iter()) {
+            f.terms.push((*e, gen_name(rng)));
+            f.edges.retain(|x| *x != (118, *m));
+            f.edges.push((118, *e));
+            f.edges.push((*e, *m));
+        }
+    }
     for m in &mids[1..] {
         f.edges.push((*m, low[1]));
     }
